@@ -9,7 +9,7 @@
 //! generator's intent (declared names outside the public API).  The extracted,
 //! proved decision procedure judges the four clauses of the statement.
 use crate::common::*;
-use crate::fcheck::*;
+use crate::fcx::*;
 use crate::props::c10::{case_source, plan, CaseSrc};
 use crate::sexp::Sx;
 
